@@ -486,6 +486,44 @@ def audit(pid, theorems, imp="PsecModel"):
             "checker_cmd": f"cd lean && lake build {imp} && lake env lean .lake/audit_{pid}.lean  # #print axioms of {len(theorems)} theorems"}
 
 
+DES_WEAK = [bytes.fromhex(x) for x in ("0101010101010101", "FEFEFEFEFEFEFEFE", "E0E0E0E0F1F1F1F1", "1F1F1F1F0E0E0E0E")]
+DES_SEMIWEAK = [bytes.fromhex(x) for x in (
+    "011F011F010E010E", "1F011F010E010E01", "01E001E001F101F1", "E001E001F101F101", "01FE01FE01FE01FE", "FE01FE01FE01FE01",
+    "1FE01FE00EF10EF1", "E01FE01FF10EF10E", "1FFE1FFE0EFE0EFE", "FE1FFE1FFE0EFE0E", "E0FEE0FEF1FEF1FE", "FEE0FEE0FEF1FEF1")]
+
+
+def special_keys(rng, size, des=True, limit=None):
+    """Key values a specification does not exclude but an implementation might treat specially: constant bytes, the DES weak and
+    semi-weak keys (also with the parity bits cleared), such a component beside random ones in every position, repeated
+    components, complements, ASCII text and ASCII hex digits. Every one of them is a key like any other for the properties."""
+    out = [bytes(size), b"\xff" * size, b"\x01" * size, b"\xfe" * size, b"\x80" + bytes(size - 1) if size else b"", bytes(size - 1) + b"\x01" if size else b"",
+           (b"0123456789ABCDEF" * 4)[:size], (b"0123456789abcdef" * 4)[:size], (b"Key material 42!" * 4)[:size]]
+    if des and size % 8 == 0 and size:
+        n = size // 8
+        comps = DES_WEAK + DES_SEMIWEAK + [bytes(8), b"\xff" * 8] + [bytes(b & 0xFE for b in k) for k in DES_WEAK[:2] + DES_SEMIWEAK[:2]]
+        for comp in comps:
+            out.append(comp * n)
+            for pos in range(n):
+                if n > 1:
+                    parts = [bytes(rng.getrandbits(8) for _ in range(8)) for _ in range(n)]
+                    parts[pos] = comp
+                    out.append(b"".join(parts))
+        a, b = (bytes(rng.getrandbits(8) for _ in range(8)) for _ in range(2))
+        out += [x[:size] for x in (a + a + b, a + b + b, a + b + a, a + bytes(x ^ 0xFF for x in a) + a) if n >= 2]
+    elif size:
+        a = bytes(rng.getrandbits(8) for _ in range(8))
+        out += [(a * 4)[:size], (a + bytes(x ^ 0xFF for x in a)) * (size // 16) + a[: size % 16]]
+    seen, uniq = set(), []
+    for k in out:
+        if len(k) == size and k not in seen:
+            seen.add(k)
+            uniq.append(k)
+    if limit is not None and len(uniq) > limit:
+        head = uniq[:6]
+        uniq = head + rng.sample(uniq[6:], limit - 6)
+    return uniq
+
+
 def big_lengths(rng, tier, bs):
     """message / data lengths around the buffer sizes an implementation might chunk at (1 KiB .. 64 KiB): the boundary itself,
     one block and one byte either side. Quick: a fixed core plus a random pick; thorough: all."""
@@ -662,6 +700,23 @@ def recheck_sample(cases, rng, limit=600):
         got = canon_impl(r, tok)
         if got != want:
             c.impl_fail.append(f"{fn}: the same call returned `{got[:120]}` when repeated at the end of the run, `{want[:120]}` the first time (history-dependent result)")
+        # bytes-like arguments: every third rechecked call is made twice more with its bytes arguments as (one and the same set of)
+        # bytearray objects, as a caller holding key material in mutable buffers would. Where the implementation takes bytes-like
+        # input at all (no TypeError), the answer must be the one given for bytes, both times, and the buffers must be left alone.
+        if n % 3 == 0 and any(type(a) is bytes for a in args):
+            ba = [bytearray(a) if type(a) is bytes else a for a in args]
+            before = [bytes(a) if isinstance(a, bytearray) else None for a in ba]
+            for attempt in (1, 2):
+                r2 = call_impl(fn, ba, stream=stream)
+                if not r2.ok and isinstance(r2.exc, TypeError):
+                    break
+                if [bytes(a) if isinstance(a, bytearray) else None for a in ba] != before:
+                    c.impl_fail.append(f"{fn} modified a bytearray argument (call {attempt} with mutable buffers)")
+                    break
+                got2 = canon_impl(r2, tok)
+                if got2 != want:
+                    c.impl_fail.append(f"{fn}: call {attempt} with the same arguments held in bytearray buffers returned `{got2[:120]}`, `{want[:120]}` with bytes")
+                    break
     return n
 
 
